@@ -6,6 +6,7 @@ extern crate rdp;
 
 mod common;
 mod io;
+mod shape;
 mod gui;
 mod props;
 
